@@ -485,7 +485,7 @@ func main() {
 			harnessTrouble = append(harnessTrouble, err.Error())
 			continue
 		}
-		dst := filepath.Join(replayDir, fmt.Sprintf("%s-seed%d-%s-%d.json", prop, *seedF, v.Class, v.Run))
+		dst := filepath.Join(replayDir, fmt.Sprintf("%s-seed%d-%s-%d.json", prop, *seedF, strings.NewReplacer("/", "_", ":", "_", " ", "_").Replace(v.Class), v.Run))
 		_ = props.SaveCase(dst, c)
 		k := ""
 		if c.Violation != nil {
